@@ -48,22 +48,29 @@ def posterior_enum(fp, xs):
 
 
 def posterior_forward(fp, xs):
-    """linear-space forward recursion written from the generative model:
+    """linear-space forward recursion written from the generative model, in 60-digit decimal arithmetic with an unbounded exponent
+    (so that hypotheses whose likelihood is e^-1000 are kept - they can win later):
     M_0 = [1];  M_t[0] = sum_r M_{t-1}[r] pi_t(r) h ;  M_t[r+1] = M_{t-1}[r] pi_t(r) (1-h), pi_t(r) = predictive density of a run of length r"""
-    h = fp["hazard"]
-    M = [1.0]
+    from decimal import Decimal, getcontext, MAX_EMAX, MIN_EMIN
+    ctx = getcontext()
+    ctx.prec, ctx.Emax, ctx.Emin = 60, MAX_EMAX, MIN_EMIN
+    h = Decimal(repr(fp["hazard"]))
+    D = lambda v: Decimal(repr(float(v)))  # noqa: E731
+    two_pi = Decimal("6.283185307179586476925286766559005768394338798750211641949889")
+    M = [Decimal(1)]
     rows = []
     for t, x in enumerate(xs, 1):
-        lps = []
+        pis = []
         for r in range(t):
-            mu, var = params(fp, xs[t - 1 - r: t - 1])
-            lps.append(-(x - mu) ** 2 / (2 * var) - 0.5 * math.log(2 * math.pi * var))
-        top = max(lps)      # common factor exp(top) cancels in the normalisation (keeps far outliers representable)
-        pis = [math.exp(lp - top) for lp in lps]
-        new = [sum(M[r] * pis[r] * h for r in range(t))] + [M[r] * pis[r] * (1 - h) for r in range(t)]
-        s = sum(new)
-        rows.append([v / s for v in new] if s > 0 else None)
-        M = [v / s for v in new] if s > 0 else new      # renormalise to stay in range (ratios unchanged)
+            vals = xs[t - 1 - r: t - 1]
+            prec = 1 / D(fp["prior_var"]) + Decimal(len(vals)) / D(fp["data_var"])
+            mu = (D(fp["prior_mean"]) / D(fp["prior_var"]) + sum((D(v) for v in vals), Decimal(0)) / D(fp["data_var"])) / prec
+            var = 1 / prec + D(fp["data_var"])
+            pis.append((-(D(x) - mu) ** 2 / (2 * var)).exp() / (two_pi * var).sqrt())
+        new = [sum((M[r] * pis[r] * h for r in range(t)), Decimal(0))] + [M[r] * pis[r] * (1 - h) for r in range(t)]
+        tot = sum(new, Decimal(0))
+        M = [v / tot for v in new] if tot > 0 else new
+        rows.append([float(v) for v in M] if tot > 0 else None)
     return rows
 
 
